@@ -564,7 +564,7 @@ pub fn direct_oracle(script: &str, trace: &str) -> Vec<String> {
             peer_det_err = true;
         }
         // the caller gets the peer's error
-        if (*e == "pee") && st.contains("end=") && !st.contains("RemoteEndedWithError") {
+        if (*e == "pee") && st.split_whitespace().any(|t| t.starts_with("end=") && !t.contains("RemoteEndedWithError")) {
             v.push(format!("c13-peer-error-lost: the peer ended with an error but end() returned {}", st));
         }
     }
@@ -867,8 +867,6 @@ fn link_legal(cur: &[&str], e: &str) -> bool {
         "pacc" => pa && pdet.is_none() && credit && sends > accs,
         "det" => !matches!(pdet, Some("pdc") | Some("pde")),
         "cls" => !matches!(pdet, Some("pd")),
-        // with credit in hand and a peer detach unseen, send() races the two (select!): either outcome occurs
-        "send" => !(pdet.is_some() && credit),
         _ => true,
     }
 }
